@@ -325,6 +325,9 @@ def run_sim_class(chk, cls, scs, mons, variant=None, batch=250, tag=None):
         # ... and every eleventh with the profiling switch on
         if variant is None and "variant" not in sc and k % 11 == 3:
             sc["variant"] = {"profile": True}
+        # ... and every thirteenth paced against the wall clock (a million times faster than real time)
+        if variant is None and "variant" not in sc and k % 13 == 6:
+            sc["variant"] = {"real_time": 1e6}
     for i in range(0, len(scs), batch):
         part = scs[i:i + batch]
         for r in corr.corr_sims(part, variant=variant):
@@ -944,6 +947,22 @@ def gen_range_before_start(R, everybody=True):
             "dur": None, "maxit": None, "drv": ("drive", ops), "script": script}
 
 
+def gen_range_around_constants(R):
+    """a sender and receivers whose distance sits just below / at / just above a range that is one of the numeric
+    literals found in the source (read on every run), along an axis and along a space diagonal"""
+    out = []
+    for c in (mined_constants() or [60.0])[:16]:
+        for fd, fr in ((0.99, 1.0), (1.0, 1.0), (1.01, 1.0), (1.0, 0.99), (1.0, 1.01)):
+            d, r = c * fd, c * fr
+            k = d / 3 ** 0.5
+            nodes = [{"pos": (0.0, 0.0, 0.0), "ty": 0}, {"pos": (d, 0.0, 0.0), "ty": 0}, {"pos": (k, k, k), "ty": 0}, {"pos": (0.0, -d, 0.0), "ty": 0}]
+            script = [[{"trig": ("init",), "nth": None, "acts": [("bcast", 1), ("settimer", 0, "abs", 1.0)]},
+                       {"trig": ("timer", 0), "nth": None, "acts": [("send", 2, 1), ("send", 3, 2), ("bcast", 4)]}], [], [], []]
+            out.append({"handlers": R.sample(["T", "C"], 2), "nodes": nodes, "med": (r, R.choice([0.0, 0.5]), 0.0),
+                        "mob": (1.0, 1.0, (0.0, 0.0, 0.0)), "asserts": [], "seed": 1, "dur": None, "maxit": None, "drv": ("run",), "script": script})
+    return out
+
+
 def check_C07(chk, R, S):
     chk.rule = ("1-4 nodes x 3 timer names; set/cancel from init, timer, packet and telemetry callbacks, re-entrant "
                 "same-name cancel/set inside the firing handler, ties, past timers, timer storms, requests for one instant made at "
@@ -1103,6 +1122,7 @@ def check_C09(chk, R, S):
     run_sim_class(chk, "sim-same-instant", [gen_same_instant_scenario(R) for _ in range(max(40, S["sims"] // 10))], [M.mon_C09])
     _many_nodes_class(chk, R, S, [M.mon_C09])
     run_sim_class(chk, "sim-range-set-before-start", [gen_range_before_start(R, everybody=False) for _ in range(max(30, S["sims"] // 10))], [M.mon_C09])
+    run_sim_class(chk, "sim-range-around-source-constants", gen_range_around_constants(R), [M.mon_C09])
     nb = sum(1 for sc in scs for nd in sc["nodes"][1:] if (M._py_sq(sc["nodes"][0]["pos"], nd["pos"]) == sc["med"][0] ** 2))
     chk.extra["boundary_pairs"] = nb
 
@@ -1422,6 +1442,13 @@ def check_C18(chk, R, S):
     run_corpus(chk, [M.mon_C18])
     scs = [gen_assert_scenario(R) for _ in range(S["sims"] * 2)]
     run_sim_class(chk, "sim-assertions", scs, [M.mon_C18])
+    crowd = []
+    for _ in range(max(20, S["sims"] // 10)):
+        sc = gen_assert_scenario(R)
+        sc["asserts"] = [(k, R.randrange(3)) if k in ("AP", "EP") else (k, R.choice(["all", "any"]))
+                         for k in (R.choice(["AP", "EP", "EP", "ASIM", "ESIM", "ESIM"]) for _ in range(R.randint(8, 20)))]
+        crowd.append(sc)
+    run_sim_class(chk, "sim-many-assertions", crowd, [M.mon_C18])
     # small-scope exhaustive: 1 node, timeline of flag values over 3 events x every assertion kind
     ex = []
     for bits in itertools.product([0, 1], repeat=4):
@@ -1715,6 +1742,35 @@ def mission_exhaustive(maxlen):
                     yield {"speed": 5.0, "mode": mode, "tol": 0.5, "ops": [("start", m)] + list(combo)}
 
 
+def gen_long_mission_case(R):
+    """scale in the mission length (30-70 waypoints): flown through in order, with jumps to late waypoints, reversals and
+    restarts in between"""
+    n = R.randint(30, 70)
+    m = [(float(3 * i), float((i * 7) % 11), float(i % 4)) for i in range(n)]
+    mode = R.choice(["no", "restart", "reverse"])
+    ops = [("start", list(m))]
+    cur, step = 0, 1
+    for _ in range(R.randint(n, 2 * n + 10)):
+        x = R.random()
+        if x < 0.8:
+            ops.append(("telem", m[cur % n] if 0 <= cur < n else m[0]))
+            cur += step
+            if cur >= n or cur < 0:
+                if mode == "reverse":
+                    step = -step
+                    cur = max(0, min(n - 1, cur + 2 * step))
+                else:
+                    cur = 0
+        elif x < 0.88:
+            cur = R.choice([n - 1, n - 2, n // 2, 0, 9, 10, 11])
+            ops.append(("setwp", cur))
+        elif x < 0.94:
+            ops.append(("setrev", R.random() < 0.5))
+        else:
+            ops.append(("telem", (1000.0, 0.0, 0.0)))
+    return {"speed": 5.0, "mode": mode, "tol": 0.5, "ops": ops}
+
+
 def check_C16(chk, R, S):
     import plugins
     chk.rule = ("histories of start / stop / set-waypoint / set-reversed / telemetry (on the waypoint, inside, exactly on "
@@ -1726,6 +1782,8 @@ def check_C16(chk, R, S):
     run_plugin_class(chk, "mission-exhaustive", cases + list(mission_exhaustive(3 if chk.tier == "quick" else 4)),
                      plugins.run_mission_impl, plugins.mission_to_text, M.mon_C16)
     run_plugin_class(chk, "mission-random", [gen_mission_case(R, 14 if chk.tier == "quick" else 60) for _ in range(S["sims"] * 4)],
+                     plugins.run_mission_impl, plugins.mission_to_text, M.mon_C16)
+    run_plugin_class(chk, "mission-long", [gen_long_mission_case(R) for _ in range(max(12, S["sims"] // 20))],
                      plugins.run_mission_impl, plugins.mission_to_text, M.mon_C16)
     chk.exhaustive = True
 
@@ -1819,6 +1877,8 @@ def check_C17(chk, R, S):
                      impl, plugins.trip_to_text, M.mon_C17)
     run_plugin_class(chk, "trip-scripted", [gen_trip_case(R, True, 14 if chk.tier == "quick" else 50) for _ in range(S["sims"] * 2)],
                      impl, plugins.trip_to_text, M.mon_C17)
+    run_plugin_class(chk, "trip-long", [gen_trip_case(R, k % 2 == 0, 150) for k in range(max(12, S["sims"] // 20))],
+                     impl, plugins.trip_to_text, M.mon_C17)
     fresh = [{"box": ((-50.0, 50.0), (-50.0, 50.0), (0.0, 50.0)), "tol": 1.0, "seed": 1, "ops": ops}
              for ops in ([("finish",)], [("telem", (0.0, 0.0, 0.0))], [("finish",), ("finish",), ("init",), ("init",), ("finish",), ("telem", (0.0, 0.0, 0.0))])]
     run_plugin_class(chk, "trip-fresh-plugin", fresh, impl, plugins.trip_to_text, M.mon_C17)
@@ -1842,6 +1902,12 @@ def check_C19(chk, R, S):
     cases = [item["case"] for item in corpus("C19")]
     cases += [G.gen_camera_case(R) for _ in range(S["sims"] * 3)]
     run_plugin_class(chk, "camera-scenes", cases, impl, G.camera_to_text, mon)
+    crowd = []
+    for _ in range(max(12, S["sims"] // 20)):
+        c = G.gen_camera_case(R)
+        c["nodes"] = list(c["nodes"]) + [(R.uniform(-25, 25), R.uniform(-25, 25), R.uniform(-5, 25)) for _ in range(R.randint(30, 80))]
+        crowd.append(c)
+    run_plugin_class(chk, "camera-crowded-scenes", crowd, impl, G.camera_to_text, mon)
     # translation invariance on exactly representable scenes
     n_pairs = 0
     for _ in range(S["sims"] // 2):
